@@ -92,8 +92,13 @@ Definition fsm_push (st : list vt) (t : vt) : res (list vt) :=
 Definition bind {A B} (r : res A) (f : A -> res B) : res B :=
   match r with Ok a => f a | Err e => Err e | Undef => Undef end.
 
+(* The loop is written once, generic in the string scanner `scan` (skip_string_1 with flags = 0 -> advance_string_default,
+   with MASK_VALIDATE_STRING -> advance_string_validate); fsm_value / fsm_step / fsm_exec_1 below are its instances for flags = 0. *)
+Section Generic.
+Variable scan : nat -> list N -> res (list N).
+
 (* /* simple values */ switch (ch)  -- st is the stack after the frame handling *)
-Definition fsm_value (fuel slen : nat) (st : list vt) (ch : N) (rest : list N) : res (list vt * list N) :=
+Definition fsm_value_g (fuel slen : nat) (st : list vt) (ch : N) (rest : list N) : res (list vt * list N) :=
   if is_digit ch then bind (skip_positive_1 (ch :: rest)) (fun r => Ok (st, r))
   else if ch =? 45 then bind (skip_negative_1 rest) (fun r => Ok (st, r))
   else if ch =? 110 then bind (advance_dword slen 1 lit_ull rest) (fun r => Ok (st, r))
@@ -101,17 +106,17 @@ Definition fsm_value (fuel slen : nat) (st : list vt) (ch : N) (rest : list N) :
   else if ch =? 102 then bind (advance_dword slen 0 lit_alse rest) (fun r => Ok (st, r))
   else if ch =? 91 then bind (fsm_push st FSM_ARR_0) (fun st' => Ok (st', rest))
   else if ch =? 123 then bind (fsm_push st FSM_OBJ_0) (fun st' => Ok (st', rest))
-  else if ch =? 34 then bind (skip_string_1 fuel rest) (fun r => Ok (st, r))
+  else if ch =? 34 then bind (scan fuel rest) (fun r => Ok (st, r))
   else if ch =? 0 then Err ERR_EOF
   else Err ERR_INVAL.
 
 (* one iteration of `while (self->sp)`: top frame t, frames below st *)
-Definition fsm_step (fuel slen : nat) (t : vt) (st : list vt) (s : list N) : res (list vt * list N) :=
+Definition fsm_step_g (fuel slen : nat) (t : vt) (st : list vt) (s : list N) : res (list vt * list N) :=
   let (ch, rest) := advance_ns s in
   if ch =? 0 then Err ERR_EOF
   else
     match t with
-    | FSM_VAL => fsm_value fuel slen st ch rest                                   (* default: FSM_DROP *)
+    | FSM_VAL => fsm_value_g fuel slen st ch rest                                   (* default: FSM_DROP *)
     | FSM_ARR =>
         if ch =? 93 then Ok (st, rest)
         else if ch =? 44 then bind (fsm_push (FSM_ARR :: st) FSM_VAL) (fun st' => Ok (st', rest))
@@ -122,37 +127,57 @@ Definition fsm_step (fuel slen : nat) (t : vt) (st : list vt) (s : list N) : res
         else Err ERR_INVAL
     | FSM_KEY =>
         if negb (ch =? 34) then Err ERR_INVAL
-        else bind (skip_string_1 fuel rest) (fun r => Ok (FSM_ELEM :: st, r))
+        else bind (scan fuel rest) (fun r => Ok (FSM_ELEM :: st, r))
     | FSM_ELEM =>
         if negb (ch =? 58) then Err ERR_INVAL
         else Ok (FSM_VAL :: st, rest)
     | FSM_ARR_0 =>
         if ch =? 93 then Ok (st, rest)
-        else fsm_value fuel slen (FSM_ARR :: st) ch rest
+        else fsm_value_g fuel slen (FSM_ARR :: st) ch rest
     | FSM_OBJ_0 =>
         if ch =? 125 then Ok (st, rest)
         else if ch =? 34 then
-          bind (skip_string_1 fuel rest) (fun r =>
+          bind (scan fuel rest) (fun r =>
           bind (fsm_push (FSM_OBJ :: st) FSM_ELEM) (fun st' => Ok (st', r)))
         else Err ERR_INVAL
     end.
 
 (* fsm_exec_1: every iteration consumes at least one byte, so fuel = length s + 1 is enough (fsm_fuel_enough).
    Result: the suffix after the value.  None = fuel exhausted (never happens with enough fuel). *)
-Fixpoint fsm_exec_1 (fuel : nat) (slen : nat) (st : list vt) (s : list N) : option (res (list N)) :=
+Fixpoint fsm_exec_g (fuel : nat) (slen : nat) (st : list vt) (s : list N) : option (res (list N)) :=
   match st with
   | [] => Some (Ok s)
   | t :: st' =>
       match fuel with
       | O => None
       | S f =>
-          match fsm_step fuel slen t st' s with
-          | Ok (st2, s2) => fsm_exec_1 f slen st2 s2
+          match fsm_step_g fuel slen t st' s with
+          | Ok (st2, s2) => fsm_exec_g f slen st2 s2
           | Err e => Some (Err e)
           | Undef => Some Undef
           end
       end
   end.
+
+End Generic.
+
+Definition fsm_value := fsm_value_g skip_string_1.
+Definition fsm_step := fsm_step_g skip_string_1.
+Definition fsm_exec_1 := fsm_exec_g skip_string_1.
+
+(* skip_string_1 with flags & MASK_VALIDATE_STRING: advance_string -> advance_string_validate *)
+Definition skip_string_v (fuel : nat) (rest : list N) : res (list N) :=
+  match advance_string_validate fuel rest with
+  | SOk r => Ok r
+  | SEof => Err ERR_EOF
+  | SInval => Err ERR_INVAL
+  end.
+
+Definition fsm_exec_v := fsm_exec_g skip_string_v.
+
+(* unfold one iteration of the loop *)
+Ltac exec_unfold := unfold fsm_exec_1; cbn [fsm_exec_g]; fold fsm_step; fold fsm_exec_1.
+Ltac exec_unfold_in H := unfold fsm_exec_1 in H; cbn [fsm_exec_g] in H; fold fsm_step in H; fold fsm_exec_1 in H.
 
 (* validate_one / skip_one_1 (flags = 0): fsm_init(m, FSM_VAL); fsm_exec_1.
    Result Ok (v, rest): v = suffix starting at the first non-blank byte (return value `vi`), rest = suffix at *p. *)
@@ -165,6 +190,16 @@ Definition skip_one_at (slen : nat) (s : list N) : res (list N * list N) :=
   end.
 
 Definition validate_one (s : list N) : res (list N * list N) := skip_one_at (length s) s.
+
+(* validate_one / skip_one with flags = MASK_VALIDATE_STRING (what a ValidateString decoder passes when it skips
+   or captures a value) *)
+Definition skip_one_vs (s : list N) : res (list N * list N) :=
+  match fsm_exec_v (S (length s)) (length s) [FSM_VAL] s with
+  | Some (Ok rest) => Ok (drop_ws s, rest)
+  | Some (Err e) => Err e
+  | Some Undef => Undef
+  | None => Err ERR_INVAL
+  end.
 Definition skip_one (s : list N) : res (list N * list N) := skip_one_at (length s) s.
 
 (* types.SPACE_MASK & (1 << c) != 0 *)
